@@ -158,41 +158,87 @@ def scripts_of(res, repos, origin):
 
 
 # ---------------------------------------------------------------- replay on the real code
+# measured seconds per operation on a busy machine (the budget is spent in these units, not in wall time)
+COST = {"index": 0.3, "crash": 0.3, "merge": 1.5, "vacuum": 1.2, "cleanup": 0.05}
+
+
+def cost(o):
+    return COST.get(o["op"], 0.03)
+
+
 class Tree:
     """the scripts as a prefix tree; one node = one operation executed once."""
 
     def __init__(self):
         self.kids = {}
-        self.size = 0
+        self.nodes = 0
+        self.cost = 0.0
 
-    def add(self, repos, ops):
+    def add(self, repos, ops, dry=False):
         n = self.kids.setdefault(("repos", repos), {})
-        new = 0
+        new, c = 0, 0.0
         for o in ops:
             k = opkey(o)
             if k not in n:
+                if dry:
+                    new += 1
+                    c += cost(o)
+                    n = {}
+                    continue
                 n[k] = {}
                 new += 1
+                c += cost(o)
             n = n[k]
-        self.size += new
-        return new
+        if not dry:
+            self.nodes += new
+            self.cost += c
+        return new, c
 
 
-def choose(rng, must, pool, budget):
-    """must + a seeded sample of pool such that the tree of chosen scripts has at most `budget` nodes."""
+def shape(s, o):
+    """class of a transition: the directory with the versions erased + the operation without its version."""
+    files = frozenset((f["l"], f["k"], tuple(f["nm"]), f["mf"], tuple((m["id"], m["tb"]) for m in f["mem"]),
+                       f["l"] == "t" and f["mt"] < s["clk"] - 24) for f in s["d"])
+    return (files, s["tmp"] > 0, tuple(sorted(s["a"])), o["op"], o["r"], o["min"])
+
+
+def choose(rng, must, pool, pred, budget):
+    """must + a seeded selection of pool within `budget` cost units: first one script per class of
+    transition not yet covered (shape), then whatever still fits."""
     t = Tree()
-    chosen = []
-    for s in must:
+    chosen, covered = [], set()
+
+    def take(s):
         t.add(s["repos"], s["ops"])
         chosen.append(s)
+        h = tuple(opkey(o) for o in s["ops"])
+        for j in range(1, len(h) + 1):
+            p = pred.get((s["repos"], h[:j - 1]))
+            if p is not None:
+                covered.add(shape(p, s["ops"][j - 1]))
+
+    for s in must:
+        take(s)
     pool = list(pool)
     rng.shuffle(pool)
+    later = []
     for s in pool:
-        if t.size >= budget:
+        if t.cost >= budget:
             break
-        if t.add(s["repos"], s["ops"]):
-            chosen.append(s)
-    return chosen, t.size
+        h = tuple(opkey(o) for o in s["ops"])
+        p = pred.get((s["repos"], h[:-1]))
+        if p is not None and shape(p, s["ops"][-1]) in covered:
+            later.append(s)
+            continue
+        if t.cost + t.add(s["repos"], s["ops"], dry=True)[1] <= budget:
+            take(s)
+    for s in later:
+        if t.cost >= budget:
+            break
+        new, c = t.add(s["repos"], s["ops"], dry=True)
+        if new and t.cost + c <= budget:
+            take(s)
+    return chosen, t, len(covered)
 
 
 def partition(scripts, procs, depth=3):
@@ -278,11 +324,9 @@ def run_stage(ctx):
 def body(ctx, rng, bg, th):
     starts = list(range(1, NWARM + 1))
     # ---- M + script generation (one run: the invariants are checked on every state explored)
-    depth = ctx.pick(4, 5)
+    depth = ctx.pick(3, 5)
     res = ctx.model_check("ZoektSeq", "ZoektSeq_mc.cfg", name="tlc_bfs", workers=1, timeout=3000,
-                          coverage=not ctx.thorough, defines=defines(2, depth, starts, "bfs"))
-    if not ctx.thorough and res.coverage_zero():
-        ctx.notes.append("ZoektSeq.tla coverage: locations never reached: %s" % res.coverage_zero()[:8])
+                          defines=defines(2, depth, starts, "bfs"))
     bfs = scripts_of(res, 2, "bfs")
     if len(bfs) < 500:
         raise vk.Inconclusive("too few scripts from TLC: %d (%s)" % (len(bfs), res.log))
@@ -312,7 +356,7 @@ def body(ctx, rng, bg, th):
             raise vk.Inconclusive("too few random walks from TLC: %d (%s)" % (len(sim), walks.log))
 
     # predictions by history
-    pred = {}
+    pred = {(r, ()): {"d": [], "tmp": 0, "a": list(range(1, r + 1)), "clk": 0, "last": [0, 0, 0]} for r in (2, 3)}
     for s in bfs + sim:
         ops = tuple(opkey(o) for o in s["ops"])
         k = len(s["preds"])
@@ -320,12 +364,16 @@ def body(ctx, rng, bg, th):
             pred[(s["repos"], ops[:len(ops) - k + 1 + i])] = p
 
     # ---- which scripts to execute: every first step after each warm start, a seeded sample of the rest
-    first = [s for s in bfs if s["n"] == 1]
-    rest = [s for s in bfs if s["n"] != 1]
-    budget = ctx.pick(330, 3300)
-    chosen, nodes = choose(rng, first + sim, rest, budget + sum(len(s["ops"]) for s in sim))
-    ctx.log("executing %d scripts (%d first steps after a warm start, %d random walks, %d sampled of %d others): %d operations" % (
-        len(chosen), len(first), len(sim), len(chosen) - len(first) - len(sim), len(rest), nodes))
+    # (operations that only change the environment are executed on the way, never as the last step)
+    real = ("index", "merge", "vacuum", "cleanup")
+    first = [s for s in bfs if s["n"] == 1 and s["ops"][-1]["op"] in real]
+    rest = [s for s in bfs if s["n"] > 1 and s["ops"][-1]["op"] in real]
+    budget = ctx.pick(300, 3600)
+    chosen, tree, classes = choose(rng, first + sim, rest, pred, budget + sum(cost(o) for s in sim for o in s["ops"]))
+    ctx.log("executing %d scripts (%d first steps after a warm start, %d random walks, %d selected of %d others): "
+            "%d operations, %d classes of transitions, estimated %.0f s of work for %d processes" % (
+                len(chosen), len(first), len(sim), len(chosen) - len(first) - len(sim), len(rest), tree.nodes, classes,
+                tree.cost, PROCS))
 
     th.join()
     if "err" in bg:
@@ -334,7 +382,7 @@ def body(ctx, rng, bg, th):
     events = replay(ctx, bg["bin"], bg["merge"], chosen, "r", ctx.pick(1500, 7200))
     ctx.log("replayed %d operations on the real code in %.0fs" % (len(events), time.time() - t0))
     return judge(ctx, rng, chosen, events, pred, {"tlc_scripts": len(bfs), "random_walks": len(sim),
-                                                  "tlc_distinct_states": res.distinct})
+                                                  "tlc_distinct_states": res.distinct, "transition_classes": classes})
 
 
 def judge(ctx, rng, scripts, events, pred, st):
